@@ -44,7 +44,8 @@ func c14GenOp(rt *rapid.T, nPaths int, base [2]int, id string, prefix bool) *c14
 	b := base[o.path]
 	var kinds []string
 	if prefix {
-		kinds = []string{"write", "write", "write", "write", "write", "patch", "delete", "deletev", "destroy", "metawrite", "metawrite", "remount"}
+		kinds = []string{"write", "write", "write", "write", "write", "patch", "delete", "deletev", "destroy", "metawrite", "metawrite", "remount",
+			"read", "read", "metadelete", "write", "write", "metadelete", "read"}
 	} else {
 		kinds = []string{
 			"write", "write", "write", "write", "write", "write", "write", "write", "write", "write",
@@ -135,7 +136,7 @@ func c14History(ops []*c14Op) []map[string]any {
 }
 
 func TestVerif_C14_Linearizable(t *testing.T) {
-	rec := verifx.NewRecorder("C14", "linearizable", "KV v2 backend over a gated recording physical backend (transactional or not): 0-4 sequential set-up operations, then 2-4 concurrent clients x 1-3 operations (write with cas = current/next/stale/0/absent, patch, read latest/version, delete latest/versions, undelete, destroy, metadata write max_versions 1-3 / cas_required, metadata delete, metadata read, config cas_required) on 1-2 secret paths, interleaved at storage-operation granularity by a stay-or-switch random walk; oracle: porcupine against the documented sequential model (partitioned by path when no engine-config write is present) with call/return stamped by a logical clock, plus consecutive version numbers and at-most/at-least-one success per presented cas; non-trivial = two writes/patches with the same explicit cas on one path overlap in the schedule, or a delete/destroy/metadata-delete overlaps a write on its path")
+	rec := verifx.NewRecorder("C14", "linearizable", "KV v2 backend over a gated recording physical backend (transactional or not): 0-8 sequential set-up operations (writes, patches, reads of the latest or a numbered version, deletes, destroys, metadata writes and deletes - so that a path's history is removed and re-created - and remounts), then 2-4 concurrent clients x 1-3 operations (write with cas = current/next/stale/0/absent, patch, read latest/version, delete latest/versions, undelete, destroy, metadata write max_versions 1-3 / cas_required, metadata delete, metadata read, config cas_required) on 1-2 secret paths, interleaved at storage-operation granularity by a stay-or-switch random walk; oracle: porcupine against the documented sequential model (partitioned by path when no engine-config write is present) with call/return stamped by a logical clock, plus consecutive version numbers and at-most/at-least-one success per presented cas; non-trivial = two writes/patches with the same explicit cas on one path overlap in the schedule, or a delete/destroy/metadata-delete overlaps a write on its path")
 	defer rec.Flush()
 	g0 := runtime.NumGoroutine()
 	defer func() {
@@ -163,7 +164,7 @@ func TestVerif_C14_Linearizable(t *testing.T) {
 
 		// ---- sequential set-up, tracked by the model so that cas values can be aimed
 		st := c14State{}
-		nPre := rapid.IntRange(0, 4).Draw(rt, "setupOps")
+		nPre := rapid.IntRange(0, 8).Draw(rt, "setupOps")
 		for i := 0; i < nPre; i++ {
 			var base [2]int
 			for p := range base {
@@ -180,6 +181,26 @@ func TestVerif_C14_Linearizable(t *testing.T) {
 			}
 			st = n
 		}
+		// One case in eight opens the concurrent part with 2-3 clients that each only mark versions of ONE path
+		// (soft delete / undelete / destroy of different version numbers): they all rewrite the same key metadata,
+		// so whichever way they interleave every acknowledged mark must be there afterwards.
+		directed := rapid.IntRange(0, 7).Draw(rt, "directedMarkRace") == 0
+		if directed {
+			setup := func(o *c14Op) {
+				o.client, o.maxV, o.casReq = 0, -1, -1
+				run(o)
+				all = append(all, o)
+				if ok, n := c14Step(st, o, o.out); ok {
+					st = n
+				}
+			}
+			for i := 0; i < 4 && st.paths[0].cur < 3; i++ {
+				setup(&c14Op{kind: "write", data: map[string]any{"k": fmt.Sprintf("d%d", i)}})
+			}
+			if rapid.Bool().Draw(rt, "directedPreDelete") {
+				setup(&c14Op{kind: "deletev", versions: []int{rapid.IntRange(1, max(1, st.paths[0].cur)).Draw(rt, "directedPreDeleted")}})
+			}
+		}
 		var base [2]int
 		for p := range base {
 			base[p] = st.paths[p].cur
@@ -187,15 +208,30 @@ func TestVerif_C14_Linearizable(t *testing.T) {
 
 		// ---- concurrent clients
 		nClients := rapid.IntRange(2, 4).Draw(rt, "clients")
+		if directed {
+			nClients = rapid.IntRange(2, 3).Draw(rt, "directedClients")
+		}
 		clients := make([][]*c14Op, nClients)
 		for c := range clients {
 			n := rapid.IntRange(1, 3).Draw(rt, "opsOfClient")
+			if directed {
+				n = 1
+			}
 			for i := 0; i < n; i++ {
-				o := c14GenOp(rt, nPaths, base, fmt.Sprintf("c%d%c", c, 'a'+i), false)
+				var o *c14Op
+				if directed {
+					o = &c14Op{maxV: -1, casReq: -1, kind: []string{"deletev", "undelete", "deletev", "undelete", "destroy"}[rapid.IntRange(0, 4).Draw(rt, "directedKind")],
+						versions: []int{rapid.IntRange(1, max(1, base[0])).Draw(rt, "directedVersion")}}
+				} else {
+					o = c14GenOp(rt, nPaths, base, fmt.Sprintf("c%d%c", c, 'a'+i), false)
+				}
 				o.client = c + 1
 				clients[c] = append(clients[c], o)
 				all = append(all, o)
 			}
+		}
+		if directed {
+			rec.Class("directed-mark-race", 1)
 		}
 		sched := verifx.NewSched(env.rec)
 		// in a third of the cases a client also parks when a storage operation has come back: what the backend does
@@ -245,6 +281,27 @@ func TestVerif_C14_Linearizable(t *testing.T) {
 			t.Fatalf("harness: %v", err)
 		}
 		env.rec.Gate = nil
+
+		// ---- closing observations, part of the history: once every client has returned, the key metadata and every
+		// version number the history can have reached are read back, so that an acknowledged effect that was lost
+		// among concurrent mutations (and that no client happened to read) still contradicts the model
+		for p := 0; p < nPaths; p++ {
+			writes := 0
+			for _, o := range all {
+				if o.path == p && o.isWrite() {
+					writes++
+				}
+			}
+			closing := []*c14Op{{kind: "metaread", path: p, maxV: -1, casReq: -1}}
+			for v := 1; v <= base[p]+writes && v <= 7; v++ {
+				closing = append(closing, &c14Op{kind: "read", path: p, version: v, maxV: -1, casReq: -1})
+			}
+			for _, o := range closing {
+				o.client = 0
+				run(o)
+				all = append(all, o)
+			}
+		}
 
 		// ---- the history
 		for _, o := range all {
